@@ -154,6 +154,76 @@ def check(model: Model, run: Run) -> None:
     if n_w < 2:
         run.cannot('only %d class-attribute writes on the decode path' % n_w)
 
+    # ------------------------------------------------------------------ R5 a memo on a shared object answers one question only
+    run.rule('C19.R5', 'a rendering memoised on an object (`if not self.x: self.x = ...; return self.x`) does not depend on the arguments of the call: decoded attribute sets are shared between messages (block cache, attribute cache), so the first caller would decide what every later caller reads', floor=1)
+    n5 = 0
+    for fi in sorted(model.funcs.values(), key=lambda f: f.qualname):
+        # attribute objects are the ones handed from one decoded message to the next (AttributeCollection.cached, Attribute.cache)
+        if fi.cls is None or not fi.module.rel.startswith('exabgp/bgp/message/update/attribute/'):
+            continue
+        params = [a.arg for a in fi.node.args.args[1:]] + [a.arg for a in fi.node.args.kwonlyargs]
+        if not params:
+            continue
+        fl = None
+        for iff in walk_no_nested(fi.node):
+            if not isinstance(iff, ast.If):
+                continue
+            t = iff.test
+            if not (isinstance(t, ast.UnaryOp) and isinstance(t.op, ast.Not) and isinstance(t.operand, ast.Attribute) and dotted(t.operand.value) == 'self'):
+                # `if self.x is None:` is the other spelling
+                if not (isinstance(t, ast.Compare) and isinstance(t.ops[0], ast.Is) and isinstance(t.left, ast.Attribute) and dotted(t.left.value) == 'self' and isinstance(t.comparators[0], ast.Constant) and t.comparators[0].value is None):
+                    continue
+                slot = dotted(t.left)
+            else:
+                slot = dotted(t.operand)
+            sets = [a for a in iff.body if isinstance(a, ast.Assign) and dotted(a.targets[0]) == slot]
+            rets = [r for r in walk_no_nested(fi.node) if isinstance(r, ast.Return) and r.value is not None and dotted(r.value) == slot]
+            if not sets or not rets:
+                continue
+            n5 += 1
+            fl = fl or Loc(model, fi)
+            reads = {p for p in params if fl.depends_on(sets[0].value, [p])}
+            # parameters pinned by the guards the memo sits under (the early `if a or b: return <uncached>` form)
+            fs = facts(fl, sets[0])
+            pinned = {p for p in reads if ('not %s' % p) in fs or any(f.startswith(p + ' is ') or f.startswith(p + ' == ') for f in fs)}
+            free = sorted(reads - pinned)
+            run.check(not free, fi.qualname, 'memo %s does not depend on the call arguments (reads %s, pinned %s)' % (slot, sorted(reads), sorted(pinned)), fi.loc(sets[0]), 'the value kept in %s is computed from the argument(s) %s of whichever call came first; the object is handed to later messages by the attribute block cache, so they get the rendering asked for by an earlier one (an extra or a missing "next-hop")' % (slot, free))
+    if n5 < 1:
+        run.cannot('no memoised rendering found on the attribute classes')
+
+    # ------------------------------------------------------------------ R6 what is recognised by identity stays in its table
+    run.rule('C19.R6', 'a class-level table whose entries are recognised by identity (`self is entry` while walking the table) only grows: nothing deletes, pops, clears or replaces it at run time, otherwise an object decoded earlier stops being what it was', floor=1)
+    ident_tables: dict[tuple[str, str], FuncInfo] = {}
+    for fi in model.funcs.values():
+        if fi.cls is None:
+            continue
+        for lp in walk_no_nested(fi.node):
+            if not isinstance(lp, ast.For):
+                continue
+            it = lp.iter
+            base = it.func.value if isinstance(it, ast.Call) and isinstance(it.func, ast.Attribute) and it.func.attr in ('items', 'values') else it
+            d = dotted(base) or ''
+            if not (d.startswith('self._') or d.startswith('cls._')) or not d.split('.', 1)[1].isupper():
+                continue
+            tnames = {x.id for x in ast.walk(lp.target) if isinstance(x, ast.Name)}
+            if any(isinstance(c, ast.Compare) and isinstance(c.ops[0], (ast.Is, ast.IsNot)) and ({dotted(c.left), dotted(c.comparators[0])} & tnames) and 'self' in (dotted(c.left), dotted(c.comparators[0])) for c in ast.walk(lp)):
+                ident_tables[(fi.cls.qualname, d.split('.', 1)[1])] = fi
+    if not ident_tables:
+        run.cannot('no identity-keyed class table found (UpdateCollection._EOR_CACHE expected)')
+    for (cq, attr), reader in sorted(ident_tables.items()):
+        shrink = []
+        for fi in model.funcs.values():
+            if fi.cls is None or not (fi.cls.qualname == cq or model.is_subclass(fi.cls.qualname, cq)):
+                continue
+            for n in walk_no_nested(fi.node):
+                if isinstance(n, ast.Delete) and any(attr in norm(t) for t in n.targets):
+                    shrink.append((fi, n))
+                if isinstance(n, ast.Call) and isinstance(n.func, ast.Attribute) and n.func.attr in ('pop', 'popitem', 'clear') and (dotted(n.func.value) or '').endswith('.' + attr):
+                    shrink.append((fi, n))
+                if isinstance(n, ast.Assign) and any((dotted(t) or '').endswith('.' + attr) for t in n.targets):
+                    shrink.append((fi, n))
+        run.check(not shrink, cq, '%s only grows (entries are recognised by identity in %s)' % (attr, short(reader.qualname)), shrink[0][0].loc(shrink[0][1]) if shrink else reader.loc(), 'an entry is removed (%s): an object handed out earlier is no longer found in the table, so a decoded End-of-RIB marker that is still held stops being an End-of-RIB' % (norm(shrink[0][1])[:60] if shrink else ''))
+
     # ------------------------------------------------------------------ R3 negotiated read-only
     run.rule('C19.R3', 'no decode-reachable function assigns to an attribute of its `negotiated` parameter', floor=60)
     n_f = 0
